@@ -19,7 +19,7 @@
 //          The two solo runs must agree with each other (otherwise "sequential run not reproducible").
 // no wall clock in the oracle: a TIMELIMIT / parent watchdog only turns a case into "inconclusive" (counted).
 //
-// options: --x maxthreads=N (default 16)  --x reps=R (default 3)  --x fork=0 (run in-process)  --x maxdim=N
+// options: --x maxthreads=N (default: thorough 16; quick 8, 16 in 15% of the cases)  --x reps=R (default 3)  --x fork=0 (run in-process)  --x maxdim=N
 //          --x casetimeout=S (default 600)
 #include "spx.hpp"
 #include "gen_lp.hpp"
@@ -692,7 +692,7 @@ static void genOps(Case& c, int t, int mode, const LP& lp)
 {
    int sz = curSize();
    int k = R(1, 3 + sz / 12);
-   bool haveSolve = false;
+   bool haveSolve = false, grown = false;   // grown: a row/column was added since the last solve
    auto op = [&](const char* kind)
    {
       Rec r("op");
@@ -708,6 +708,7 @@ static void genOps(Case& c, int t, int mode, const LP& lp)
       case 0:
          c.recs.push_back(op("solve"));
          haveSolve = true;
+         grown = false;
          break;
       case 1:
       {
@@ -740,6 +741,7 @@ static void genOps(Case& c, int t, int mode, const LP& lp)
          int nz = R(1, 4);
          for(int e = 0; e < nz; e++) r.add(R(0, 30)).addq(Q(NZ(9)));
          c.recs.push_back(r);
+         grown = true;
          break;
       }
       case 5:
@@ -751,6 +753,7 @@ static void genOps(Case& c, int t, int mode, const LP& lp)
          int nz = R(0, 4);
          for(int e = 0; e < nz; e++) r.add(R(0, 30)).addq(Q(NZ(9)));
          c.recs.push_back(r);
+         grown = true;
          break;
       }
       case 6:
@@ -772,7 +775,15 @@ static void genOps(Case& c, int t, int mode, const LP& lp)
          c.recs.push_back(op("setinf").add(R(0, 2)));
          break;
       case 12:
-         c.recs.push_back(op("stats"));
+         // known finding stats-after-resize: printStatistics -> getDualViolation/getRedCostViolation index the stale
+         // solution vectors with the new numRows()/numCols() after addRow/addCol (out-of-bounds read, garbage output).
+         // Exclude exactly: statistics between an addrow/addcol and the next solve.
+         if(grown && knownKey("stats-after-resize"))
+         {
+            ev().count("excluded_known.stats-after-resize");
+            c.recs.push_back(op("query"));
+         }
+         else c.recs.push_back(op("stats"));
          break;
       case 13:
          c.recs.push_back(op("settings").add(R(0, 1)));
@@ -787,7 +798,28 @@ static void genOps(Case& c, int t, int mode, const LP& lp)
          c.recs.push_back(op("basis").add(R(0, 1)));
          break;
       case 17:
-         c.recs.push_back(op("clone").add(R(0, 1)));
+         // known finding copy-uninit-members: SoPlexBase's copy constructor / operator= leave _optimizeCalls,
+         // _unscaleCalls and the solver's storeBasisSimplexFreq uninitialised: a copied object solves
+         // nondeterministically (persistent scaling re-applied or not) and divides by zero with PRECISION_BOOSTING.
+         // Exclude exactly the copy operation.
+         if(knownKey("copy-uninit-members"))
+         {
+            ev().count("excluded_known.copy-uninit-members");
+            c.recs.push_back(op("query"));
+         }
+         else
+         {
+            // known finding assign-dangling-pointers: SoPlexBase::operator= leaves pointers into the source object
+            // (LP scaler, basis matrix vectors, ...); using the target after the source died reads freed memory.
+            // Exclude exactly the assignment half of the operation (copy construction stays).
+            int assign = R(0, 1);
+            if(assign && knownKey("assign-dangling-pointers"))
+            {
+               assign = 0;
+               ev().count("excluded_known.assign-dangling-pointers");
+            }
+            c.recs.push_back(op("clone").add(assign));
+         }
          break;
       case 18:
          c.recs.push_back(op("timer").add(R(0, 2)));
@@ -800,13 +832,17 @@ static void genOps(Case& c, int t, int mode, const LP& lp)
       }
    }
    if(!haveSolve) c.recs.push_back(op("solve"));
-   (void) mode;
    (void) lp;
 }
 
 static void gen(Case& c)
 {
-   int maxT = (int) std::max(2L, std::min(16L, opts().xi("maxthreads", 16)));
+   // thread cap: --x maxthreads=N if given; otherwise 16 in the thorough tier and, in the quick tier (16 shards run in
+   // parallel), 8 for 85% of the cases and 16 for the rest, so that 2..16 is covered while the machine is not swamped
+   int maxT;
+   if(opts().x.count("maxthreads")) maxT = (int) std::max(2L, std::min(16L, opts().xi("maxthreads", 16)));
+   else if(opts().tier == "thorough") maxT = 16;
+   else maxT = P(15) ? 16 : 8;
    int reps = (int) std::max(1L, std::min(10L, opts().xi("reps", 3)));
    int sz = curSize();
    int capT = std::max(2, std::min(maxT, 2 + (maxT * (sz + 20)) / 100));
@@ -881,6 +917,23 @@ static void gen(Case& c)
       }
       genOps(c, t, mode, lp);
    }
+   // known finding mps-strtok: MPSInput::readLine tokenises with strtok(); two threads reading MPS files at the same
+   // time corrupt each other's lines. Exclude exactly "more than one thread program reads an MPS file": the MPS io
+   // operations of all but the first such program become LP-format io operations.
+   if(knownKey("mps-strtok"))
+   {
+      int mpsProg = -1;
+      for(auto& r : c.recs)
+         if(r.tag == "op" && r.s(1) == "io" && r.i(2) == 1)
+         {
+            if(mpsProg < 0) mpsProg = (int) r.i(0);
+            else if(r.i(0) != mpsProg)
+            {
+               r.a[2] = "0";
+               ev().count("excluded_known.mps-strtok");
+            }
+         }
+   }
 }
 
 // ------------------------------------------------------------------ the case, executed inside the child process
@@ -926,6 +979,8 @@ static Verdict runCase(const Case& c)
       return v;
    }
    int T = (int) ps.size();
+   // replays repeat the concurrent phase more often (schedule-dependent findings must reproduce three times in a row)
+   if(opts().mode == "replay") reps *= (int) std::max(1L, std::min(20L, opts().xi("replaymult", 4)));
    (void) QINF();
    std::vector<Digest> seqA(T), seqB(T);
    std::vector<Info> infA(T), infB(T);
@@ -945,7 +1000,7 @@ static Verdict runCase(const Case& c)
          th.emplace_back([&, t, r]()
       {
          bar.wait();
-         int w = r < (int) ps[t].warm.size() ? ps[t].warm[r] : 0;
+         int w = ps[t].warm.empty() ? 0 : ps[t].warm[r % (int) ps[t].warm.size()];
          for(int k = 0; k < w; k++) sink[t] += warmup();
          runProg(ps[t], t, conc[r][t], infC[r][t]);
       });
@@ -958,6 +1013,9 @@ static Verdict runCase(const Case& c)
    }
    else sequential(seqB, infB);
 
+   if(opts().xi("dump", 0))   // debugging aid: the digests of the first solo run
+      for(int t = 0; t < T; t++)
+         for(auto& kv : seqA[t]) fprintf(stderr, "t%d %s %s = %s\n", t, modeName(ps[t].mode), kv.first.c_str(), shortv(kv.second).c_str());
    // evidence (main thread only)
    e.count(std::string("flavour.") + (isTsan ? "tsan" : "plain"));
    e.count("threads." + std::to_string(T));
@@ -992,6 +1050,14 @@ static Verdict runCase(const Case& c)
          return v;
       }
       comparable++;
+      // known finding boost-global-precision: a solve that boosts its precision reads the process-wide default
+      // precision, which every SoPlex constructor / exact solve / boost in another thread overwrites. Exactly the
+      // programs that performed >= 1 precision boost are not compared (they still run concurrently under TSan).
+      if(infA[t].boosts > 0 && knownKey("boost-global-precision"))
+      {
+         e.count("excluded_known.boost-global-precision");
+         continue;
+      }
       bool act = true;
       for(int r = 0; r < reps; r++) act = act && infC[r][t].solvesWithIter >= 1;
       if(act) active++;
@@ -1034,18 +1100,48 @@ static void rmTree(const std::string& d)
    }
    rmdir(d.c_str());
 }
-// "ThreadSanitizer: data race; global 'x'; in f()" from the report text
+// stable one-line signature of the first ThreadSanitizer report in the captured stderr text:
+//   "ThreadSanitizer data race: <function of access 1> vs <function of access 2>; <location>"
+static std::string frameFunction(const std::string& block)
+{
+   std::istringstream is(block);
+   std::string line, firstWithFile;
+   while(std::getline(is, line))
+   {
+      size_t h = line.find('#');
+      if(h == std::string::npos || line.find_first_not_of(' ') != h) continue;
+      size_t sp = line.find(' ', h);
+      if(sp == std::string::npos) continue;
+      size_t path = line.find(" /", sp);
+      if(path == std::string::npos) continue;
+      std::string fn = line.substr(sp + 1, path - sp - 1);
+      size_t par = fn.find('(');
+      if(par != std::string::npos && par > 0) fn = fn.substr(0, par);
+      if(fn.compare(0, 8, "soplex::") == 0) return fn;
+      if(firstWithFile.empty()) firstWithFile = fn;
+   }
+   return firstWithFile.empty() ? std::string("?") : firstWithFile;
+}
 static std::string tsanSignature(const std::string& t)
 {
    size_t w = t.find("WARNING: ThreadSanitizer:");
-   if(w == std::string::npos) return "";
+   if(w == std::string::npos)
+   {
+      w = t.find("ERROR: ThreadSanitizer:");
+      if(w == std::string::npos) return "";
+      size_t eol = t.find('\n', w);
+      std::string l = t.substr(w + 7, eol == std::string::npos ? std::string::npos : eol - (w + 7));
+      size_t on = l.find(" on unknown address");
+      if(on != std::string::npos) l = l.substr(0, on);
+      return l + " in " + frameFunction(t.substr(w));
+   }
    size_t eol = t.find('\n', w);
    std::string kind = t.substr(w + 26, eol == std::string::npos ? std::string::npos : eol - (w + 26));
    size_t par = kind.find(" (pid");
    if(par != std::string::npos) kind = kind.substr(0, par);
    size_t end = t.find("==================", w);
    std::string rep = t.substr(w, end == std::string::npos ? std::string::npos : end - w);
-   std::string loc, fun;
+   std::string loc;
    size_t l = rep.find("Location is ");
    if(l != std::string::npos)
    {
@@ -1055,22 +1151,32 @@ static std::string tsanSignature(const std::string& t)
       if(of != std::string::npos) loc = loc.substr(0, of);
       size_t at = loc.find(" at 0x");
       if(at != std::string::npos) loc = loc.substr(0, at);
+      if(loc.compare(0, 15, "stack of thread") == 0) loc = "stack of another thread";
    }
-   size_t s = rep.find("SUMMARY: ThreadSanitizer:");
-   if(s != std::string::npos)
+   // access blocks are separated by empty lines: block 0 = this access, block 1 = previous access
+   std::vector<std::string> blocks;
    {
-      size_t se = rep.find('\n', s);
-      std::string sum = rep.substr(s, se == std::string::npos ? std::string::npos : se - s);
-      size_t in = sum.find(" in ");
-      if(in != std::string::npos) fun = sum.substr(in + 4);
+      size_t pos = 0;
+      while(pos < rep.size() && blocks.size() < 2)
+      {
+         size_t e2 = rep.find("\n\n", pos);
+         blocks.push_back(rep.substr(pos, e2 == std::string::npos ? std::string::npos : e2 - pos));
+         if(e2 == std::string::npos) break;
+         pos = e2 + 2;
+      }
    }
-   return "ThreadSanitizer: " + kind + (loc.empty() ? "" : "; " + loc) + (fun.empty() ? "" : "; in " + shortv(fun));
+   std::string f1 = blocks.size() > 0 ? frameFunction(blocks[0]) : "?", f2 = blocks.size() > 1 ? frameFunction(blocks[1]) : "?";
+   return "ThreadSanitizer " + kind + ": " + f1 + " vs " + f2 + (loc.empty() ? "" : "; " + loc);
 }
 
 static Verdict run(const Case& c)
 {
    static int serial = 0;
    serial++;
+   // shrinking budget: cases are large (hundreds of draws) and every attempt costs a process with up to 16 threads;
+   // after the budget every further shrink candidate is answered "passes", so the smallest failing case found so far
+   // stays in failing.case and rapidcheck terminates quickly
+   if(ev().failed && ev().shrinkRuns >= opts().xi("shrinkbudget", 120)) return Verdict();
    bool gen = opts().mode == "gen";
    workDir = (gen ? opts().dir : std::string("/var/tmp")) + "/c18w-" + std::to_string((long) getpid()) + "-" + std::to_string(serial);
    mkdir(workDir.c_str(), 0777);
